@@ -1,4 +1,5 @@
 import ErgoVerif.Generated.Unreg
+import ErgoVerif.Generated.SupShell
 import ErgoVerif.Lemmas.SupStep
 import ErgoVerif.Lemmas.SupScan
 import ErgoVerif.Lemmas.SupOrder
@@ -550,6 +551,20 @@ example : ∃ c, run ofoStepSafe (ofoBoot (sp3 false false .temporary true true)
 the node releases the name before it sends the exit signals (regenerated from node.unregisterProcess; the repaired D28 —
 the restart is exercised on a real node by the K4 part of the harness) -/
 theorem C08_code_shape_name_release : ErgoVerif.Gen.Unreg.nameReleasedBeforeExitSignals = true := by decide
+
+/-- the shell that executes the machines' actions (`Supervisor.handleAction`), as the closed-system model and the
+simulation assume it: a start links the child both ways, hands a spawn error back (the supervisor terminates with it),
+records the pid and asks the machine for the next action; stopping children sends every exit signal and IGNORES a
+refusal (a child that is already gone has its exit on the way), never returning from inside the loop; an empty stop
+list and `terminate` end the supervisor with the action's reason (regenerated statement skeletons) -/
+def expectedShell : List String := [
+  "supActionDoNothing: s.state=supStateNormal; break",
+  "supActionStartChild: s.state=supStateStrategy; action.spec.Options.LinkChild=true; action.spec.Options.LinkParent=true; if action.spec.register {pid,err=s.SpawnRegister()} else {pid,err=s.Spawn()}; if err != nil {s.state=supStateNormal; return}; if s.handleChild {s.Send()}; s.children[pid]=action.spec.Name; action=s.sup.childStarted(); continue",
+  "supActionTerminateChildren: if len(action.terminate) == 0 {return}; s.state=supStateStrategy; range action.terminate {if err:=s.SendExit(); err == nil {s.Log().Info()}}; s.state=supStateNormal; return",
+  "supActionTerminate: return",
+  "default: panic()"]
+
+theorem C08_code_shape_shell : ErgoVerif.Gen.SupShell.caseShapes = expectedShell := rfl
 
 /-! ## non-vacuity -/
 
